@@ -234,8 +234,18 @@ func c18Sorted(w *World, r *Report) {
 			continue
 		}
 		// receiver from element a (param 1), argument from element b (param 2)
-		ra := derivesFromValue(c.Common().Args[0], less.Params[1]) && !derivesFromValue(c.Common().Args[0], less.Params[2])
-		rb := derivesFromValue(c.Common().Args[1], less.Params[2]) && !derivesFromValue(c.Common().Args[1], less.Params[1])
+		usesIdx := func(v ssa.Value, p ssa.Value) bool {
+			found := false
+			backSliceIdx(v, func(x ssa.Value) bool {
+				if x == p {
+					found = true
+				}
+				return found
+			})
+			return found
+		}
+		ra := usesIdx(c.Common().Args[0], less.Params[1]) && !usesIdx(c.Common().Args[0], less.Params[2])
+		rb := usesIdx(c.Common().Args[1], less.Params[2]) && !usesIdx(c.Common().Args[1], less.Params[1])
 		okLess = ra && rb
 	}
 	r.Check(okLess, "C18/SORTED", "Less/operands", w.Pos(less.Pos()), "Less(a, b) is version(a).LessThan(version(b))", "Less(a, b) is not version(a) < version(b): the sort direction or key is wrong")
